@@ -209,6 +209,8 @@ def main():
       rand.append(s)
     if len(rand) >= nrand:
       break
+  # a weight read by 9-12 operators, some dynamic-range and some weight-only
+  rand += [rgen.gen_fanout(args.seed * 7 + i) for i in range(12 if args.tier == "quick" else 300)]
   rf, rd = pipecheck.design_run_from("C06_random", rand, ["InvSkeleton", "InvModes", "InvBytes"], timeout=7200)
   for s in rand:
     items.append((s, args.seed, rd.get(synth.scn_key({k: s[k] for k in ("subs", "mode", "inmode", "outmode")}))))
